@@ -5,6 +5,8 @@ import sqlparse
 from sqlparse import lexer, tokens as T
 
 RULE = ('inputs: corpus, g2/g3 mixed junk, grammar scripts with random layout; every returned piece is re-fed to split(); '
+        'border sweep: every whitespace code point of str.isspace() and every odd code point of gen.ODD at every piece border of four templates; '
+        'long scripts across every usual block size (4 KiB .. 64 KiB, thorough 1 MiB) with semicolons, blank lines and line ends inside literals, comments and blocks; '
         'non-trivial = distinct input with at least two pieces')
 ASSUMPTIONS = ['splitter model tied by S-SPLIT (sampled) and S-CSL (exhaustive)', 'lexer model tied by S-LEX/S-RE (C01)']
 ALSO_THEOREMS = [('SqlProps.C02', ['Sql.C02.split_is_stripped_parse', 'Sql.C02.parse_fails_only_where_split_fails_or_depth'])]
@@ -83,6 +85,30 @@ def oracle(ctx, s):
             return
 
 
+# --- characters at piece borders: whatever str.strip() removes must be whitespace to the lexer too, and nothing else may disappear ----------------------
+def border_texts():
+    import sys
+    spaces = [chr(c) for c in range(sys.maxunicode + 1) if chr(c).isspace()]
+    odd = [chr(c) for c in gen.ODD if not 0xD800 <= c <= 0xDFFF] + ['​', '⁠', '᠎', '\x00', '﻿﻿']
+    out = []
+    for ch in list(dict.fromkeys(spaces + odd)):
+        out += [ch + 'a;' + ch + 'b' + ch + ';' + ch, ch + 'select 1', 'select 1;' + ch + 'select 2' + ch, 'a' + ch + ';' + ch + ch + 'b', ch, ch + ';', 'x;' + ch + '-- c\n' + ch + 'y']
+    return out
+
+
+# --- long scripts: a front end that works block-wise / paragraph-wise / line-wise on large inputs must still give the statements of parse() -------------
+def long_texts(ctx):
+    out = []
+    for n in [4096, 8192, 65536] + ([] if ctx.quick() else [1 << 20]):
+        pad = 'a' * n
+        # few tokens (cheap to group), but the text is longer than the block and has `;`, blank lines and CRLF inside a literal / a comment / a block
+        out.append("select '" + pad + "\n\nb; c\r\n;' from t;\n\nselect 2;\n\nselect 3")
+        out.append('select 1 /* ' + pad + '\n\n; x;\n\n */ , 2;\n\n-- ' + pad + ' ; y\nselect 3;')
+        out.append('create procedure p() begin\n\nselect "' + pad + '";\n\nselect 2;\n\nend;\n\nselect 4;')
+    out.append('select a, b from t where x = 1;\n\n' * 300)        # token-dense, 9900 characters
+    return out
+
+
 def run(ctx):
     rng = ctx.rng
     ins = [c['input'] for c in streams.corpus('C04')]
@@ -95,6 +121,12 @@ def run(ctx):
     for s in ins:
         oracle(ctx, s)
     ctx.samples += [short(s, 80) for s in ins[-2:]]
+    for s in border_texts():
+        oracle(ctx, s)
+        ctx.count('border_text')
+    for s in long_texts(ctx):             # oracle only: the model driver is too slow for texts of this length
+        oracle(ctx, s)
+        ctx.count('long_text')
     if ctx.model.available:
         streams.s_split(ctx, ins[: ctx.n(7000, 120000)])
         ex = list(gen.gsplit_exhaustive(3))
